@@ -356,6 +356,10 @@ package go_clipper2
 //@   ensures [sign] len(poly) >= 3 ==> result == (shoelace(poly, len(poly)) >= 0)
 //@   ensures [short] len(poly) < 3 ==> result
 
+//@ func IsPositive64 variant maxcoord
+//@   props C14 C13 C08
+//@   requires domPath(poly, 61)
+
 //@ func AreaPaths64
 //@   props C14
 //@   requires forall(k, 0, len(paths), domPath(paths[k], 29) && (len(paths[k]) <= 4 || noWrap(paths[k])))
@@ -416,6 +420,30 @@ package go_clipper2
 //@   assert after rQuad [rquad-shape] quadOK(rQuad, pattern, path, isSum, g, i, h, j)
 //@   ensures [count] len(path) >= ite(isClosed, 0, 1) ==> len(result) == (len(path) - ite(isClosed, 0, 1)) * len(pattern)
 //@   ensures [empty] len(path) < ite(isClosed, 0, 1) ==> len(result) == 0
+
+// the same construction for coordinates up to half of MaxCoord (sums stay within MaxCoord): no
+// 64-bit operation wraps, the orientation test goes through Area64's wide-coordinate contract
+//@ func minkowskiInternal variant maxcoord
+//@   props C08 C13
+//@   budget 10
+//@   pure
+//@   requires domPath(pattern, 60) && domPath(path, 60)
+//@   requires int64(len(pattern)) <= pow2(30) && int64(len(path)) <= pow2(30)
+//@   loop 0 invariant [tmp] len(tmp) == _i && patLen == len(pattern) && pathLen == len(path) && forall(k, 0, _i, len(tmp[k]) == patLen && forall(m, 0, patLen, tmp[k][m] == mkPt(path[k], pattern[m], isSum)))
+//@   loop 0.0 invariant [row] len(path2) == _i && forall(m, 0, _i, path2[m] == mkPt(pathPt, pattern[m], true))
+//@   loop 0.1 invariant [row] len(path2) == _i && forall(m, 0, _i, path2[m] == mkPt(pathPt, pattern[m], false))
+//@   loop 1 invariant [shape] delta <= i && (i <= pathLen || (pathLen < delta && i == delta)) && len(tmp) == pathLen && patLen == len(pattern) && pathLen == len(path) && (delta == 0 || delta == 1) && (isClosed == (delta == 0))
+//@   loop 1 invariant [tmp] forall(k, 0, pathLen, len(tmp[k]) == patLen && forall(m, 0, patLen, tmp[k][m] == mkPt(path[k], pattern[m], isSum)))
+//@   loop 1 invariant [count] len(result) == (i-delta)*patLen
+//@   loop 1 invariant [gh] h == patLen-1 && (i == delta ==> g == ite(isClosed, pathLen-1, 0)) && (i > delta ==> g == i-1)
+//@   loop 1 decreases pathLen - i
+//@   loop 1.0 invariant [shape] 0 <= j && j <= patLen && delta <= i && i < pathLen && len(tmp) == pathLen && patLen == len(pattern) && pathLen == len(path) && (delta == 0 || delta == 1) && (isClosed == (delta == 0))
+//@   loop 1.0 invariant [tmp] forall(k, 0, pathLen, len(tmp[k]) == patLen && forall(m, 0, patLen, tmp[k][m] == mkPt(path[k], pattern[m], isSum)))
+//@   loop 1.0 invariant [count] len(result) == (i-delta)*patLen + j
+//@   loop 1.0 invariant [gh] h == ite(j == 0, patLen-1, j-1) && g == ite(i == 0, pathLen-1, i-1)
+//@   loop 1.0 decreases patLen - j
+//@   assert after quad [quad-shape] quadOK(quad, pattern, path, isSum, g, i, h, j)
+//@   assert after rQuad [rquad-shape] quadOK(rQuad, pattern, path, isSum, g, i, h, j)
 
 // ---------------------------------------------------------------------------------
 // C07: floating-point API == integer API on quantised input; C19/C08 wrappers
